@@ -99,16 +99,30 @@ def c_shadow(ctx, args):
         circ = pc.brickwall_rcc(n, 2)
     else:
         # 'fixed' | 'fixed_compiled' | 'fixed_mcircuit' | 'fixed_mcircuit_compiled': a deterministic circuit of either class, as built or compiled
-        circ = pc.identity_circuit(n) if 'mcircuit' not in kind else CI.Circuit(n)
         rng2 = __import__('random').Random(seed)
-        for _ in range(3):
-            circ.take(NP.mk_gate(gen.rgate(rng2, ctx.model, n, kinds=('gen', 'named'))))
-        if kind.endswith('compiled'):
-            circ.compile()
-        # povm(k): k independent copies of the back-evolved computational basis state
-        z = pc.zero_state(n)
-        circ.backward(z)
-        ref = S.st_list(z)
+        if kind.startswith('diag'):
+            # 'diag' | 'diag_copy' | 'diag_used_copy': the circuit that diagonalizes a stabilizer state (one gate given by its BACKWARD map only), as returned or copied
+            u = gen.rtableau(rng2, ctx.model, n, r=0)
+            circ0 = pc.diagonalize(NP.STATE(u))
+            if kind == 'diag_used_copy':
+                circ0.forward(NP.STATE(u))
+            circ = circ0.copy() if 'copy' in kind else circ0
+            ref = [[[list(a[0]), a[1] % 4] for a in u[0]], 0]          # the computational basis state taken backward through it is the diagonalized state itself
+            z = pc.zero_state(n)
+            circ.backward(z)
+            if not S.same_state(S.st_list(z), ref):
+                return {'kind': 'oracle', 'where': 'np:%s: the basis state taken backward through the circuit of diagonalize(state) is not that state' % kind, 'observed': S.st_list(z), 'expected': ref, 'tags': ['povm', kind]}
+            ref = S.st_list(z)
+        else:
+            circ = pc.identity_circuit(n) if 'mcircuit' not in kind else CI.Circuit(n)
+            for _ in range(3):
+                circ.take(NP.mk_gate(gen.rgate(rng2, ctx.model, n, kinds=('gen', 'named'))))
+            if kind.endswith('compiled'):
+                circ.compile()
+            # povm(k): k independent copies of the back-evolved computational basis state
+            z = pc.zero_state(n)
+            circ.backward(z)
+            ref = S.st_list(z)
         ys = list(circ.povm(max(2, nsample)))
         for j, y in enumerate(ys):
             if S.st_list(y) != ref:
@@ -195,7 +209,7 @@ def run(ctx):
     for it in range(int(70 * B)):
         n = rng.randint(1, 4)
         t = gen.rtableau(rng, ctx.model, n)
-        kind = rng.choice(['onsite', 'global', 'brickwall', 'fixed', 'fixed', 'fixed_compiled', 'fixed_compiled', 'fixed_mcircuit', 'fixed_mcircuit_compiled'])
+        kind = rng.choice(['onsite', 'global', 'brickwall', 'fixed', 'fixed', 'fixed_compiled', 'fixed_compiled', 'fixed_mcircuit', 'fixed_mcircuit_compiled', 'diag', 'diag_copy', 'diag_copy', 'diag_used_copy'])
         do(ctx, 'shadow', [t, kind, rng.randrange(10 ** 6), 3], nontrivial=('sh', kind, it))
         do(ctx, 'snapshot_corr', [t, gen.rtableau(rng, ctx.model, n, r=0), rng.randrange(10 ** 6)], nontrivial=('sc', it))
         ctx.res.count('shadow_' + kind)
